@@ -146,3 +146,23 @@ func (tree *Tree[T]) buildMethods(num int, methods ...string) {
 
 	buildMethodIndexes(tree.node.methodIndex)
 }
+
+// 重新统计各个请求方法在所有节点上的数量
+//
+// 删除操作无法简单地通过参数得知实际被删除的请求方法，比如删除整个节点或是并不存在的请求方法。
+func (tree *Tree[T]) rebuildMethods() {
+	clear(tree.methods)
+	tree.node.countMethods(tree.methods)
+	tree.buildMethods(0)
+}
+
+func (n *node[T]) countMethods(methods map[string]int) {
+	for _, c := range n.children {
+		for m := range c.handlers {
+			if m != methodNotAllowed && m != http.MethodOptions && m != http.MethodHead {
+				methods[m]++
+			}
+		}
+		c.countMethods(methods)
+	}
+}
